@@ -127,6 +127,16 @@ CLAIMED = {
         engine="crosshair", design="4/C14",
         note="CrossHair 0.0.110 + z3; values modelled as ints/bools; get_fluid stubbed; 'Not confirmed' is reported as "
              "inconclusive, never as success"),
+    "C18": dict(
+        text="Distances: networkx' Dijkstra (pure Python) is executed by the real calc_distance_to_junction / "
+             "calc_minimum_distance_to_junctions / create_nxgraph on nets with symbolic pipe lengths; on every path z3 (LRA) proves "
+             "each returned distance to be the minimum over all simple paths of the summed lengths, for all positive lengths "
+             "(multigraph and simple graph, open / closed valves). Pattern part (by evaluation, labelled so): per enumerated "
+             "flag pattern unsupplied_junctions + out-of-service == junctions without pressure result, and the graph has exactly "
+             "one edge per live junction-junction element (none for junction-pipe valves, the pipe's edge removed when closed).",
+        technique="symbolic execution of networkx Dijkstra through the real topology functions + z3 (LRA) per path; set "
+                  "equalities of the pattern part by evaluation; one known finding (F21) listed",
+        design="4/C18"),
     "C19": dict(
         text="The real library code is executed on symbolic queries: every tabulated property of every library fluid through "
              "the real FluidPropertyInterExtra.get_at_value and scipy's real interp1d._evaluate - each path is one table "
